@@ -165,6 +165,9 @@ def r_add_form(ck: Checker) -> None:
     for lf in leaves:
         a = lf.assign
         unknown = set(a) - {k_inst, k_src, k_ov, k_ov2}
+        if "is(other.source,self.source)" in unknown:
+            bad.append("the sources are compared by identity (equal sources held as distinct objects are not merged)")
+            continue
         if unknown:
             raise Unsupported(f"CodeOrigin.__add__ decides on {sorted(unknown)}", f.node)
         ov = a.get(k_ov, a.get(k_ov2))
